@@ -29,9 +29,12 @@ DESIGNS = {
     'b3': dict(rings=3, pd=1.20, clearance='mid', wire=False),
     'd5': dict(rings=5, pd=1.20, clearance='mid', wire=True),
 }
-DUCTS = {'1': dict(ducts=1), '2f': dict(ducts=2, bypass_fraction=0.08),
-         '2s': dict(ducts=2, bypass_fraction=0.0), '3': dict(ducts=3, bypass_fraction=0.1),
-         '3s': dict(ducts=3, bypass_fraction=0.0)}
+# unequal wall and bypass thicknesses on purpose (inside out): index slips between
+# neighbouring walls / gaps must be visible
+DUCTS = {'1': dict(ducts=1), '2f': dict(ducts=2, bypass_fraction=0.08, duct_t=[0.002, 0.003]),
+         '2s': dict(ducts=2, bypass_fraction=0.0, duct_t=[0.002, 0.003]),
+         '3': dict(ducts=3, bypass_fraction=0.1, duct_t=[0.0015, 0.0025, 0.003], byp_t=[0.0025, 0.0035]),
+         '3s': dict(ducts=3, bypass_fraction=0.0, duct_t=[0.0015, 0.0025, 0.003], byp_t=[0.0025, 0.0035])}
 
 
 def power_spec(kind, rings, nduct, L, seed):
@@ -71,6 +74,7 @@ def build_scn(c, seed=0, coolant=None, dz_user=None):
                  'convection_factor': c.get('cf', 1.0)}
     dsn = S.design(dd['rings'], pd=dd['pd'], clearance=dd['clearance'], wire=dd['wire'],
                    ducts=nd, oftf=oftf, corr=tuple(c['fam']),
+                   duct_t=dk.get('duct_t', 0.0025), byp_t=dk.get('byp_t', 0.003),
                    bypass_fraction=dk.get('bypass_fraction'), regions=regions, lowfi=lowfi)
     # flow rate from the target Reynolds number (own evaluation of A, De)
     flow = c.get('flow')
